@@ -385,7 +385,78 @@ def division_work(P, item):
     P.reached += 1
 
 
+def wrapper_work(P, item):
+    """the real ChannelStats.push_data / __add__ bytecode with recording kernels: the right kernel gets
+    (array, the accumulator's moments, the caller's start index); the merge gets (self, other, new)"""
+    from sigpyproc.core import stats
+    from ..core import Ctx, SInt, explore
+    calls = []
+
+    class KRec:
+        def __getattr__(self, name):
+            def k(*a):
+                calls.append((name,) + a)
+            return k
+
+    def run(ctx):
+        calls.clear()
+        si = z3.Int("start_index")
+        out = []
+        for mode in ("basic", "full", "anything-else"):
+            class CS:
+                _moments = object()
+            cs = CS()
+            arr = object()
+            calls.clear()
+            rebind(stats.ChannelStats.push_data, kernels=KRec())(cs, arr, SInt(si), mode=mode)
+            out.append((mode, list(calls), arr, cs))
+        return si, out
+
+    def on_path(ctx, o):
+        Ctx.cur = ctx
+        si, out = o
+        P.reached += 1
+        for mode, cl, arr, cs in out:
+            want = "compute_online_moments_basic" if mode == "basic" else "compute_online_moments"
+            ok = len(cl) == 1 and cl[0][0] == want and cl[0][1] is arr and cl[0][2] is cs._moments and len(cl[0]) == 4
+            c = z3.BoolVal(not ok)
+            if ok:
+                from ..core import term
+                c = term(cl[0][3]) != si
+            name = f"ChannelStats.push_data[{mode}]: kernel({want}) receives (array, moments, start_index)"
+            if ctx.check(c) == z3.unsat:
+                P.obligation(name, "holds", symbolic=True)
+            else:
+                params = dict(kind="push_wrapper", mode="basic" if mode == "basic" else "full")
+                src = ("import sys, json\nfrom symx.concrete import c10\n"
+                       f"sys.exit(c10.main(json.loads({json.dumps(json.dumps(params))})))\n")
+                P.violation(f"push_data-{mode}", name, src, model=params)
+        Ctx.cur = None
+    explore(run, bound=2, on_path=on_path, stats=P.stats)
+    # __add__
+    calls.clear()
+
+    class CS2:
+        def __init__(self, nchans, nsamps):
+            self.nchans, self.nsamps, self._moments = nchans, nsamps, object()
+    a, b = CS2(3, 5), CS2(3, 7)
+    fn = rebind(stats.ChannelStats.__add__, kernels=KRec(), ChannelStats=CS2)
+    c = fn(a, b)
+    ok = len(calls) == 1 and calls[0][0] == "add_online_moments" and calls[0][1] is a._moments and calls[0][2] is b._moments and calls[0][3] is c._moments \
+        and c.nsamps == 12 and c.nchans == 3
+    P.stats.queries += 1
+    if ok:
+        P.obligation("ChannelStats.__add__: merge kernel receives (self, other, new) and the counts add", "holds", symbolic=False)
+    else:
+        params = dict(kind="merge", nchans=1, split=2, chunks_a=[2], chunks_b=[3], data=[1.0, 2.0, 4.0, 7.0, 11.0])
+        src = ("import sys, json\nfrom symx.concrete import c10\n"
+               f"sys.exit(c10.main(json.loads({json.dumps(json.dumps(params))})))\n")
+        P.violation("add-wrapper", "ChannelStats.__add__ does not merge (self, other) into the new accumulator", src, model=params)
+
+
 def work(P, item):
+    if item[0] == "wrapper":
+        return wrapper_work(P, item)
     return {"chunks": chunk_work, "merge": merge_work, "overflow": overflow_work, "division": division_work}[item[0]](P, item)
 
 
@@ -412,6 +483,8 @@ def run(R):
     items.append(("merge", 3, 2, False))
     items.append(("overflow",))
     items.append(("division",))
+    items.append(("wrapper",))
+    R.encode(stats.ChannelStats.push_data, stats.ChannelStats.__add__)
     parts = R.pmap(work, items)
     R.vacuity_witness("c10", sum(p.reached for p in parts) > 0)
     # twin: a wrong claim (m2 equals the *sample* variance numerator times 2) must be refuted
